@@ -35,8 +35,8 @@ Proof. reflexivity. Qed.
 Lemma gen_tags_any_interesting_ok ts : gen_tags_any_interesting ts = any_interesting_now ts.
 Proof.
   unfold gen_tags_any_interesting, any_interesting_now. induction ts as [|t r IH]; [reflexivity|].
-  rewrite loop_fold_cons. cbn [any_interesting].
-  destruct (negb (uninteresting uninteresting_tags (fst t))); [reflexivity|exact IH].
+  rewrite loop_fold_cons. cbn [any_interesting]. cbv zeta.
+  destruct (uninteresting uninteresting_tags (fst t)); cbn [negb]; [exact IH|reflexivity].
 Qed.
 
 (* ---- polygon.go ---- *)
@@ -60,7 +60,7 @@ Qed.
 Theorem gen_way_polygon_ok (T : list raw_rule) (nodes : list waynode) (ts : tags) :
   gen_way_polygon T nodes ts = res_opt (way_polygon_wn (map decode_rule T) nodes ts).
 Proof.
-  unfold gen_way_polygon, way_polygon_wn. rewrite Z_of_nat_leb3.
+  unfold gen_way_polygon, way_polygon_wn. cbv zeta. rewrite Z_of_nat_leb3.
   destruct (List.length nodes <=? 3)%nat eqn:Elen; [reflexivity|].
   apply Nat.leb_gt in Elen.
   change 0%Z with (Z.of_nat 0). rewrite get_at_nat.
@@ -68,10 +68,10 @@ Proof.
   rewrite get_at_nat.
   destruct (nth_error nodes 0) as [a|]; [|reflexivity].
   destruct (nth_error nodes (List.length nodes - 1)) as [b|]; [|reflexivity].
-  cbn [option_map olift2]. destruct (negb (wid a =? wid b)%Z); [reflexivity|].
-  cbv zeta. rewrite !gen_tags_find_ok.
+  cbn [option_map olift2]. destruct (wid a =? wid b)%Z; cbn [negb]; [|reflexivity].
+  rewrite !gen_tags_find_ok.
   destruct (String.eqb (find "area" ts) "no"); [reflexivity|].
-  destruct (negb (String.eqb (find "area" ts) "")); [reflexivity|].
+  destruct (String.eqb (find "area" ts) ""); cbn [negb]; [|reflexivity].
   (* the rule loop *)
   induction T as [|c T IH]; [reflexivity|].
   rewrite loop_fold_cons. cbn [map rule_loop]. rewrite gen_tags_find_ok.
